@@ -893,7 +893,7 @@ static int write_table(void *context, cif_value_tp *table_value) {
     } else {
         int separate_values_save = IS_SEPARATE_VALUES(context);
 
-        if (write_literal(context, "{", 1, separate_values_save) == 1) {
+        if (write_literal(context, "{", 1, CIF_WRAP) == 1) {
             int write_names_save = IS_WRITE_ITEM_NAMES(context);
             const UChar **key;
 
